@@ -12,9 +12,10 @@ Executable specification for C06, written from the documents, not from the code:
                  else MissingWidth; times 1/1000, or times FontMatrix[0] for Type3.
 
 Shares with the model only the data types (`FontDict`, `DiffTok`, `TuEntry`, tables) and the functions
-that are pure parsing of the font dictionary's byte strings (`tuDefs`, `utf16beIgnore`, `placeholder`).
+that are pure parsing of the font dictionary's byte strings (`tuDefs`, `utf16beIgnore`, `placeholder`, and
+`resolveFontFile` = tokenising the clear-text header of an embedded Type 1 program into its `put` pairs).
 -/
-import PdfVerif.Model.SimpleFont
+import PdfVerif.Model.Type1Header
 
 namespace PdfVerif.SimpleFont.Spec
 open PdfVerif PdfVerif.SimpleFont
@@ -284,5 +285,19 @@ def judgedCode (T : Tables) (fd : FontDict) (code : Int) : Bool :=
       | some _ => true
       | none => judgedEncName T fd code
   | none => judgedEncName T fd code
+
+/-! ### Font dictionaries with the raw FontFile stream -/
+
+/-- The property on a font dictionary whose embedded Type 1 program is given as bytes: `none` when reading
+the header fails (such programs are outside the property's domain). -/
+def specRaw (T : Tables) (raw : RawFontDict) (code : Int) : Option (Text × Rat) :=
+  match resolveFontFile T.fm raw with
+  | .ok fd => some (specText T fd code, specWidth T fd code)
+  | .error _ => none
+
+def judgedRaw (T : Tables) (raw : RawFontDict) (code : Int) : Bool :=
+  match resolveFontFile T.fm raw with
+  | .ok fd => judgedCode T fd code
+  | .error _ => false
 
 end PdfVerif.SimpleFont.Spec
